@@ -9,13 +9,14 @@ WT = "/tmp/wt-seeds"
 CACHE = "/tmp/cache-seeds"
 EXPECT = {  # seed -> check expected to report it (DESIGN 10.5)
     "C01": "C11", "C01.2": "C01", "C02": "C02", "C02.2": "C02", "C03": "C03", "C03.2": "C12", "C04": "C04", "C04.2": "C04",
-    "C05": "C11", "C05.2": "C11", "C06": "C06", "C06.2": "C12", "C07": "C07", "C07.2": "C07", "C08": "C08", "C08.2": "C09",
+    "C05": "C11", "C05.2": "C11", "C06": "C06", "C06.2": "C12", "C07": "C07", "C07.2": "C07", "C08": "C08",
     "C09": "C09", "C09.2": "C04", "C10": "C10", "C10.2": "C10", "C11": "C11", "C11.2": "C11", "C12": "C12", "C12.2": "C12",
     "C13": "C13", "C13.2": "C04", "C14": "C14", "C14.2": "C14", "C15": "C15", "C15.2": "C15", "C16": "C16", "C16.2": "C16",
     "C17": "C17", "C17.2": "C06",
     "C01.3": "C01", "C03.3": "C03", "C04.3": "C07", "C08.3": "C13", "C13.3": "C13", "C14.3": "C14",
     "C02.4": "C02", "C06.4": "C17", "C07.4": "C07", "C09.4": "C04", "C16.4": "C16", "C17.4": "C17",
     "C04.5": "C07", "C05.5": "C01", "C10.5": "C10", "C12.5": "C12", "C15.5": "C15",
+    "C03.6": "C17", "C06.6": "C01", "C08.6": "C08", "C13.6": "C04", "C14.6": "C14", "C16.6": "C16",
     # C11.5 changes the nightly-only IFMA backend: it is caught by C11's thorough tier (ifma configuration), not by the quick tier replayed here
 }
 BENIGN = {  # benign mutant -> checks that must stay silent
@@ -25,6 +26,9 @@ BENIGN = {  # benign mutant -> checks that must stay silent
     "benign-C13-rename-reorder": ["C13"], "benign-C16-scalar-visitor": ["C16"], "benign-C03-step1": ["C03", "C06"],
     "C04-benign-mulbase-pow2": ["C04"], "benign-C07-ladder-while-let": ["C07"], "benign-C10-select-enumerate": ["C10", "C11"],
     "benign-C13-explicit-loops": ["C13"], "benign-C03-double-reassoc": ["C03"], "benign-C07-ladder-step-commute": ["C07"], "benign-C06-decode-reassoc": ["C06"], "benign-C09-recompute-operators": ["C09"], "benign-C02-mont-mul-as-montgomery": ["C02"], "benign-C04-pippenger-sum-explicit": ["C04"], "benign-C01-load8-reorder": ["C01"], "benign-C01-as-bytes-q-loop": ["C01", "C11"],
+    # seed C08.2 (compute_challenge hashes min(len, 255) / ctx[..255]) was a violation on the pinned snapshot; the repair 01b199a rejects
+    # contexts longer than 255 bytes before the challenge is computed, which makes the seed behaviour-preserving: it must now be silent
+    "seed:C08.2": ["C09", "C08"],
 }
 WORKERS = 4
 
@@ -48,6 +52,9 @@ def main():
     jobs = []
     for sid, chk in sorted(EXPECT.items()):
         jobs.append(("seed " + sid, "%s/seeded/%s/patch.diff" % (V, sid), [chk], True))
+    for name, checks in BENIGN.items():
+        if name.startswith("seed:"):
+            jobs.append(("benign " + name, "%s/seeded/%s/patch.diff" % (V, name[5:]), checks, False))
     for fn in sorted(os.listdir(V + "/selftest/mutants")):
         name = fn[:-5]
         if name in BENIGN:
